@@ -466,6 +466,7 @@ func main() {
 	nf := doFiles(*repo)
 	doBuilt(*seed, *n)
 	doBuiltBoxes(*seed)
+	doSetters(*seed, *n, *repo)
 	fmt.Fprintf(out, "STAT\tfile_decodes=%d built=%d\n", nf, *n)
 	fmt.Fprintf(out, "EVALS\t%d\n", evals)
 }
